@@ -1,6 +1,768 @@
-//! C16 -- monitor (to be written)
-use crate::fw::ctx;
+//! C16 -- phases: canonical representative modulo 2, group laws, classification,
+//! best rational approximation, float round trip.
+//!
+//! Every verdict compares the real `quizx::phase::Phase` against the BigInt rational
+//! oracle `oracle::ratio` (O5). `limit_denominator` is judged three times: against a
+//! literal port of CPython's algorithm (older, distance-based text), by brute force over all
+//! denominators for bounds <= 64, and -- offline over a recorded event log -- by the real
+//! `fractions.Fraction.limit_denominator` (`/verif/py/c16_fraction_check.py`).
+//!
+//! Readings of the property text (chosen so that correct code cannot be blamed):
+//! * "stored as the unique representative in (-1,1]" is judged on the *value* of
+//!   `to_rational()`; whether the stored `Ratio` is gcd-reduced is only counted
+//!   (`repr:unreduced`), its consequences are caught by the `==`/predicate checks.
+//! * operands are generated so that no intermediate of the documented computation can
+//!   exceed 62 bits (the quantifier excludes overflow).
+//! * "round-trips to within rounding": |to_f64(from_f64(f)) - f| (distance modulo 2) must be
+//!   <= 4 ulp of max(1,|f|); to_f64 alone must be within 1 ulp(1) = 2^-52 of the stored value.
+//! * the four predicates must (a) take the same value on n/d and n/d + 2k -- that is the
+//!   property -- and (b) agree with their own doc comments (separate signature).
+
+use crate::fw::{ctx, guarded, par_cases, Caught, VERIF_DIR};
+use crate::gen::prng::{hash_str, Rng};
+use crate::oracle::ratio::{self, closest_bruteforce, limit_denominator_cpython, q_of_f64, Q};
+use num::bigint::BigInt;
+use num::{One, Rational64, Zero};
+use quizx::phase::Phase;
+use serde_json::{json, Value};
+use std::collections::BTreeMap;
+use std::sync::Mutex;
+
+/// sub-cases per par_cases case (a replay re-runs one batch)
+const BATCH: u64 = 64;
+
+static EVENTS: Mutex<Vec<String>> = Mutex::new(Vec::new());
+
+#[derive(Default)]
+struct Tally(BTreeMap<String, u64>);
+impl Tally {
+    fn add(&mut self, k: &str) {
+        *self.0.entry(k.to_string()).or_default() += 1;
+    }
+    fn flush(self) {
+        let c = ctx();
+        for (k, n) in self.0 {
+            c.count(&k, n);
+        }
+    }
+}
+
+fn qj(q: &Q) -> Value {
+    json!(format!("{}/{}", q.n, q.d))
+}
+
+fn q_of_phase(p: &Phase) -> Option<(Q, i64, i64)> {
+    let r = p.to_rational();
+    let (n, d) = (*r.numer(), *r.denom());
+    if d == 0 {
+        return None;
+    }
+    Some((Q::from_i64s(n, d), n, d))
+}
+
+fn gcd_i64(a: i64, b: i64) -> i64 {
+    let (mut a, mut b) = (a.unsigned_abs(), b.unsigned_abs());
+    while b != 0 {
+        let t = a % b;
+        a = b;
+        b = t;
+    }
+    a as i64
+}
+
+// ------------------------------------------------------------------------------------
+// generators
+// ------------------------------------------------------------------------------------
+
+fn gen_den(r: &mut Rng, max_log: u32) -> i64 {
+    match r.below(10) {
+        0..=3 => r.range(1, 8),
+        4 => r.range(1, 64),
+        5 => 1i64 << r.below((max_log.min(20) + 1) as usize),
+        6 => *r.pick(&[3i64, 5, 7, 12, 16, 256, 1024, 360, 1000, 997]),
+        7 | 8 => r.range(1, 1i64 << max_log.min(20)),
+        _ => r.range(1, 1i64 << max_log),
+    }
+}
+
+/// numerator for a given denominator, biased to the ends of (-1,1] and just outside
+fn gen_num(r: &mut Rng, d: i64, big_log: u32) -> i64 {
+    match r.below(12) {
+        0 => 0,
+        1 => d,
+        2 => -d,
+        3 => d + r.range(-2, 2),
+        4 => -d + r.range(-2, 2),
+        5 => r.range(-d + 1, d),            // inside the interval
+        6 => r.range(-3, 3) * d,            // integers
+        7 => 2 * r.range(-4, 4) * d + r.range(-2, 2), // near even integers
+        8 => (2 * r.range(-4, 4) + 1) * d + r.range(-2, 2), // near odd integers
+        9 | 10 => r.range(-8 * d, 8 * d),
+        _ => r.range(-(1i64 << big_log), 1i64 << big_log),
+    }
+}
+
+const CTORS: [&str; 6] = ["new(Rational64::new)", "from((n,d))", "new(new_raw reduced)", "new(new_raw reduced, negative denominator)", "Rational64::into", "from(i64)"];
+
+/// Build a phase for n/d (d > 0) through constructor `k`; returns None when the
+/// constructor does not apply (from(i64) on a non-integer).
+fn build_phase(k: usize, n: i64, d: i64) -> Option<Result<Phase, Caught>> {
+    let g = gcd_i64(n, d).max(1);
+    Some(match k {
+        0 => guarded(|| Phase::new(Rational64::new(n, d))),
+        1 => guarded(|| Phase::from((n, d))),
+        2 => guarded(|| Phase::new(Rational64::new_raw(n / g, d / g))),
+        3 => guarded(|| Phase::new(Rational64::new_raw(-(n / g), -(d / g)))),
+        4 => guarded(|| {
+            let p: Phase = Rational64::new(n, d).into();
+            p
+        }),
+        _ => {
+            if n % d != 0 {
+                return None;
+            }
+            guarded(|| Phase::from(n / d))
+        }
+    })
+}
+
+fn interval_class(x: &Q) -> &'static str {
+    if x.in_half_open_unit() {
+        if x.n == x.d {
+            "input=1"
+        } else {
+            "input-inside"
+        }
+    } else if x.n == -&x.d {
+        "input=-1"
+    } else if x.is_integer() {
+        "input-integer"
+    } else {
+        "input-outside"
+    }
+}
+
+/// Construct + check the normal form. Returns the phase and its stored value.
+fn make_checked(family: &'static str, index: u64, t: &mut Tally, r: &mut Rng, n: i64, d: i64) -> Option<(Phase, Q)> {
+    let c = ctx();
+    let x = Q::from_i64s(n, d);
+    let want = x.norm_mod2();
+    loop {
+        let k = r.below(CTORS.len());
+        let Some(res) = build_phase(k, n, d) else { continue };
+        let ctor = CTORS[k];
+        t.add(&format!("ctor:{ctor}"));
+        let input = json!({"n": n, "d": d, "constructor": ctor});
+        let p = match res {
+            Ok(p) => p,
+            Err(e) => {
+                c.violation(&format!("Phase::new|panic|{ctor}|{}", e.site()), family, index, json!({"input": input, "panic": e.text()}));
+                return None;
+            }
+        };
+        let Some((st, sn, sd)) = q_of_phase(&p) else {
+            c.violation(&format!("Phase::new|zero-denominator|{ctor}"), family, index, json!({"input": input}));
+            return None;
+        };
+        if sd < 0 || gcd_i64(sn, sd) != 1 {
+            t.add("repr:unreduced-or-negative-denominator");
+        }
+        if st != want {
+            let class = if !st.in_half_open_unit() { "outside(-1,1]" } else { "wrong-class" };
+            c.violation(
+                &format!("Phase::new|not-canonical:{class}|{ctor}|{}", interval_class(&x)),
+                family,
+                index,
+                json!({"input": input, "stored": format!("{sn}/{sd}"), "expected": qj(&want)}),
+            );
+            return None;
+        }
+        // normalize() is idempotent on stored values
+        match guarded(|| p.normalize()) {
+            Ok(p2) => {
+                if p2 != p || q_of_phase(&p2).map(|v| v.0) != Some(want.clone()) {
+                    c.violation("Phase::normalize|not-idempotent", family, index, json!({"input": input, "stored": format!("{sn}/{sd}"), "after": format!("{}", p2)}));
+                }
+            }
+            Err(e) => c.violation(&format!("Phase::normalize|panic|{}", e.site()), family, index, json!({"input": input, "panic": e.text()})),
+        }
+        t.add(&format!("normal-form:{}", interval_class(&x)));
+        return Some((p, st));
+    }
+}
+
+// ------------------------------------------------------------------------------------
+// families
+// ------------------------------------------------------------------------------------
+
+fn predicates(p: &Phase) -> [bool; 6] {
+    [p.is_pauli(), p.is_clifford(), p.is_proper_clifford(), p.is_t(), p.is_zero(), p.is_one()]
+}
+const PRED_NAMES: [&str; 6] = ["is_pauli", "is_clifford", "is_proper_clifford", "is_t", "is_zero", "is_one"];
+
+/// the doc-comment meaning of each predicate, as a function of the class (value in (-1,1])
+fn predicates_model(x: &Q) -> [bool; 6] {
+    let two_x = x.mul_int(2);
+    let four_x = x.mul_int(4);
+    let half = Q::from_i64s(1, 2);
+    let is_zero = x.is_zero();
+    let is_one = *x == Q::int(1);
+    [is_zero || is_one, two_x.is_integer(), *x == half || *x == half.neg(), four_x.is_integer() && !two_x.is_integer(), is_zero, is_one]
+}
+
+fn sub_normal_eq_pred(family: &'static str, index: u64, r: &mut Rng, t: &mut Tally) -> (bool, u64) {
+    let c = ctx();
+    let d = gen_den(r, 30);
+    let n = gen_num(r, d, 40);
+    let k = if r.chance(0.1) { r.range(-(1 << 20), 1 << 20) } else { r.range(-5, 5) };
+    let n2 = n + 2 * k * d;
+    let h = hash_str(&format!("nf:{n}/{d}:{k}"));
+    let x = Q::from_i64s(n, d);
+    let Some((p1, v1)) = make_checked(family, index, t, r, n, d) else { return (false, h) };
+    let Some((p2, _v2)) = make_checked(family, index, t, r, n2, d) else { return (false, h) };
+    let detail = |what: &str, extra: Value| json!({"what": what, "a": format!("{n}/{d}"), "b": format!("{n2}/{d}"), "k": k, "stored_a": format!("{p1}"), "stored_b": format!("{p2}"), "extra": extra});
+    // == on equal classes
+    if !(p1 == p2) || p1 != p2 {
+        c.violation(&format!("Phase::eq|equal-classes-compare-unequal|{}", interval_class(&x)), family, index, detail("x and x+2k must compare equal", json!(null)));
+    }
+    t.add("eq:same-class");
+    // predicates: class invariance + doc meaning
+    let (a, b) = (predicates(&p1), predicates(&p2));
+    let m = predicates_model(&v1);
+    for i in 0..6 {
+        if a[i] != b[i] {
+            c.violation(&format!("Phase::{}|depends-on-representative", PRED_NAMES[i]), family, index, detail(PRED_NAMES[i], json!({"on_a": a[i], "on_b": b[i]})));
+        } else if a[i] != m[i] {
+            c.violation(&format!("Phase::{}|differs-from-doc-definition", PRED_NAMES[i]), family, index, detail(PRED_NAMES[i], json!({"observed": a[i], "by_definition": m[i]})));
+        }
+        if a[i] {
+            t.add(&format!("pred-true:{}", PRED_NAMES[i]));
+        }
+    }
+    // == against an unrelated small phase
+    let d3 = if r.chance(0.5) { d } else { gen_den(r, 6) };
+    let n3 = if r.chance(0.3) { n + r.range(-2, 2) * d3 } else { gen_num(r, d3, 10) };
+    let y = Q::from_i64s(n3, d3);
+    if let Some((p3, _)) = make_checked(family, index, t, r, n3, d3) {
+        let want = x.congruent_mod2(&y);
+        let got = p1 == p3;
+        t.add(if want { "eq:other-same-class" } else { "eq:other-different-class" });
+        if got != want {
+            c.violation(
+                &format!("Phase::eq|{}", if want { "equal-classes-compare-unequal|independent-operands" } else { "different-classes-compare-equal" }),
+                family,
+                index,
+                json!({"a": format!("{n}/{d}"), "b": format!("{n3}/{d3}"), "stored_a": format!("{p1}"), "stored_b": format!("{p3}"), "observed_eq": got, "expected_eq": want}),
+            );
+        }
+    }
+    (!x.in_half_open_unit(), h)
+}
+
+fn sub_arith(family: &'static str, index: u64, r: &mut Rng, t: &mut Tally) -> (bool, u64) {
+    let c = ctx();
+    let d1 = gen_den(r, 28);
+    let n1 = gen_num(r, d1, 40);
+    let d2 = if r.chance(0.4) { d1 } else { gen_den(r, 28) };
+    let n2 = match r.below(6) {
+        0 => -n1 + r.range(-1, 1) * d2,                         // near the negation
+        1 => (d2 - n1.rem_euclid(2 * d1).min(d2)) + r.range(-1, 1), // lands near the end 1
+        _ => gen_num(r, d2, 40),
+    };
+    let k: i64 = match r.below(6) {
+        0 => 0,
+        1 => *r.pick(&[1i64, -1, 2, -2]),
+        2 => r.range(-(1i64 << 32), 1i64 << 32),
+        3 => d1 * r.range(-3, 3) + r.range(-1, 1),
+        _ => r.range(-64, 64),
+    };
+    let h = hash_str(&format!("ar:{n1}/{d1}:{n2}/{d2}:{k}"));
+    let (x, y) = (Q::from_i64s(n1, d1), Q::from_i64s(n2, d2));
+    let Some((p, _)) = make_checked(family, index, t, r, n1, d1) else { return (false, h) };
+    let Some((q, _)) = make_checked(family, index, t, r, n2, d2) else { return (false, h) };
+    let mut nontrivial = false;
+    let ops: [(&str, Q, Result<Phase, Caught>); 8] = [
+        ("add", x.add(&y), guarded(|| p + q)),
+        ("sub", x.sub(&y), guarded(|| p - q)),
+        ("neg", x.neg(), guarded(|| -p)),
+        ("mul_i64", x.mul_int(k), guarded(|| p * k)),
+        ("add_assign", x.add(&y), guarded(|| { let mut a = p; a += q; a })),
+        ("sub_assign", x.sub(&y), guarded(|| { let mut a = p; a -= q; a })),
+        ("mul_assign_i64", x.mul_int(k), guarded(|| { let mut a = p; a *= k; a })),
+        ("sub_rev", y.sub(&x), guarded(|| q - p)),
+    ];
+    for (name, exact, res) in ops {
+        let want = exact.norm_mod2();
+        let wrap = if exact.in_half_open_unit() { "no-wrap" } else { "wrap" };
+        if wrap == "wrap" {
+            nontrivial = true;
+        }
+        t.add(&format!("op:{name}:{wrap}"));
+        if want.n == want.d {
+            t.add("op-result=1");
+        }
+        let detail = json!({"op": name, "a": format!("{n1}/{d1}"), "b": format!("{n2}/{d2}"), "k": k, "stored_a": format!("{p}"), "stored_b": format!("{q}"), "expected": qj(&want)});
+        match res {
+            Err(e) => c.violation(&format!("Phase::{name}|panic|{}", e.site()), family, index, json!({"case": detail, "panic": e.text()})),
+            Ok(got) => match q_of_phase(&got) {
+                Some((g, _, _)) if g == want => {}
+                _ => {
+                    let class = match q_of_phase(&got) {
+                        Some((g, _, _)) if g.congruent_mod2(&want) => "right-class-wrong-representative",
+                        _ => "wrong-class",
+                    };
+                    c.violation(&format!("Phase::{name}|{class}|{wrap}"), family, index, json!({"case": detail, "observed": format!("{got}")}));
+                }
+            },
+        }
+    }
+    (nontrivial, h)
+}
+
+fn push_event(keep: bool, n: &BigInt, d: &BigInt, m: i64, rn: i64, rd: i64, raw: bool) {
+    if !keep {
+        return;
+    }
+    let s = if raw { format!("{{\"n\":{n},\"d\":{d},\"m\":{m},\"rn\":{rn},\"rd\":{rd},\"raw\":1}}") } else { format!("{{\"n\":{n},\"d\":{d},\"m\":{m},\"rn\":{rn},\"rd\":{rd}}}") };
+    EVENTS.lock().unwrap_or_else(|e| e.into_inner()).push(s);
+}
+
+fn gen_bound(r: &mut Rng) -> i64 {
+    match r.below(10) {
+        0..=3 => r.range(2, 64),
+        4 => *r.pick(&[2i64, 3, 4, 8, 16, 64, 256, 1000, 10_000, 1_000_000]),
+        5..=7 => r.range(2, 10_000),
+        8 => r.range(2, 1 << 20),
+        _ => r.range(2, 300),
+    }
+}
+
+/// class of a limit_denominator query for signatures / evidence
+fn ld_class(x: &Q, m: i64) -> &'static str {
+    let mb = BigInt::from(m);
+    if x.d <= mb {
+        return "exact-hit";
+    }
+    // tie between a fraction below and one above?  (decided with the port's own candidates
+    // would be circular; use the definition: some fraction with denominator <= m at the
+    // same distance on the other side) -- only evaluated for small m
+    if m <= 64 {
+        let (_d, who) = closest_bruteforce(x, m as u64);
+        if who.len() > 1 {
+            return "tie";
+        }
+    }
+    "approximation"
+}
+
+fn check_ld_result(family: &'static str, index: u64, t: &mut Tally, site: &str, x: &Q, m: i64, got: &Q, normalised: bool, input: &Value) {
+    let c = ctx();
+    let mb = BigInt::from(m);
+    let port_raw = limit_denominator_cpython(x, &mb);
+    let port = if normalised { port_raw.norm_mod2() } else { port_raw.clone() };
+    let class = ld_class(x, m);
+    t.add(&format!("limit_denominator:{class}"));
+    if got.d > mb {
+        c.violation(&format!("{site}|denominator-exceeds-bound|{class}"), family, index, json!({"input": input, "observed": qj(got)}));
+    }
+    if *got != port {
+        c.violation(&format!("{site}|differs-from-cpython-port|{class}"), family, index, json!({"input": input, "observed": qj(got), "cpython_port": qj(&port)}));
+    }
+    if m <= 64 {
+        let (dist, who) = closest_bruteforce(x, m as u64);
+        t.add("limit_denominator:brute-force-checked");
+        let ok = who.iter().any(|w| if normalised { w.norm_mod2() == *got } else { w == got });
+        if !ok {
+            c.violation(
+                &format!("{site}|not-the-closest-fraction|{class}"),
+                family,
+                index,
+                json!({"input": input, "observed": qj(got), "closest": who.iter().map(qj).collect::<Vec<_>>(), "min_distance": qj(&dist)}),
+            );
+        }
+        // the port itself must be closest too, otherwise the oracle is broken
+        if !who.contains(&port_raw) {
+            c.harness_error(&format!("ratio oracle: CPython port not closest for {x} m={m}"));
+        }
+    }
+}
+
+fn sub_limit_phase(family: &'static str, index: u64, r: &mut Rng, t: &mut Tally, keep: bool) -> (bool, u64) {
+    let c = ctx();
+    // the phase: rational with up to 61-bit denominator, or made from a float
+    let (p, x) = if r.chance(0.25) {
+        let f = gen_float(r);
+        match guarded(|| Phase::from_f64(f)) {
+            Ok(p) => match q_of_phase(&p) {
+                Some((x, _, _)) => (p, x),
+                None => return (false, 0),
+            },
+            Err(_) => return (false, 0), // judged in the float family
+        }
+    } else {
+        let max_log = *r.pick(&[8u32, 12, 20, 30, 45, 61]);
+        let d = gen_den(r, max_log);
+        let n = gen_num(r, d, 20.min(max_log));
+        match make_checked(family, index, t, r, n, d) {
+            Some(v) => v,
+            None => return (false, 0),
+        }
+    };
+    if x.d >= (BigInt::one() << 62usize) {
+        // 2*denominator does not fit in 63 bits: outside the quantifier ("do not overflow")
+        t.add("limit_denominator:skipped-denominator>=2^62");
+        return (false, 0);
+    }
+    let m = if r.chance(0.15) {
+        // bound right around the denominator / half of it
+        let (_, xd) = x.to_i64s().unwrap();
+        (match r.below(4) {
+            0 => xd - 1,
+            1 => xd,
+            2 => xd / 2,
+            _ => xd / 2 + 1,
+        })
+        .clamp(2, 1 << 40)
+    } else {
+        gen_bound(r)
+    };
+    let h = hash_str(&format!("ld:{x}:{m}"));
+    let input = json!({"phase": qj(&x), "max_denom": m});
+    match guarded(|| p.limit_denominator(m)) {
+        Err(e) => c.violation(&format!("Phase::limit_denominator|panic|{}", e.site()), family, index, json!({"input": input, "panic": e.text()})),
+        Ok(res) => match q_of_phase(&res) {
+            None => c.violation("Phase::limit_denominator|zero-denominator", family, index, json!({"input": input})),
+            Some((g, rn, rd)) => {
+                if !g.in_half_open_unit() {
+                    c.violation("Phase::limit_denominator|result-not-canonical", family, index, json!({"input": input, "observed": format!("{rn}/{rd}")}));
+                }
+                check_ld_result(family, index, t, "Phase::limit_denominator", &x, m, &g, true, &input);
+                push_event(keep, &x.n, &x.d, m, rn, rd, false);
+                t.add("events:phase");
+            }
+        },
+    }
+    (x.d > BigInt::from(m), h)
+}
+
+fn sub_limit_raw(family: &'static str, index: u64, r: &mut Rng, t: &mut Tally, keep: bool) -> (bool, u64) {
+    let c = ctx();
+    let max_log = *r.pick(&[8u32, 12, 20, 30, 40]);
+    let d = gen_den(r, max_log);
+    let n = match r.below(4) {
+        0 => gen_num(r, d, 20),
+        1 => r.range(-(1 << 20), 1 << 20),
+        _ => r.range(-(1i64 << 20), 1i64 << 20).wrapping_mul(d.min(1 << 20)) / r.range(1, 1000),
+    };
+    let m = gen_bound(r);
+    let x = Q::from_i64s(n, d);
+    let h = hash_str(&format!("ldraw:{x}:{m}"));
+    let input = json!({"fraction": format!("{n}/{d}"), "max_denom": m});
+    match guarded(|| quizx::phase::utils::limit_denominator(Rational64::new(n, d), m)) {
+        Err(e) => c.violation(&format!("utils::limit_denominator|panic|{}", e.site()), family, index, json!({"input": input, "panic": e.text()})),
+        Ok(res) => {
+            let (rn, rd) = (*res.numer(), *res.denom());
+            if rd == 0 {
+                c.violation("utils::limit_denominator|zero-denominator", family, index, json!({"input": input}));
+            } else {
+                let g = Q::from_i64s(rn, rd);
+                check_ld_result(family, index, t, "utils::limit_denominator", &x, m, &g, false, &input);
+                push_event(keep, &x.n, &x.d, m, rn, rd, true);
+                t.add("events:raw");
+            }
+        }
+    }
+    (x.d > BigInt::from(m), h)
+}
+
+fn gen_float(r: &mut Rng) -> f64 {
+    match r.below(14) {
+        0 => r.range(-64, 64) as f64 / (1u64 << r.below(21)) as f64, // dyadic
+        1 => r.range(-40, 40) as f64 * 0.1,
+        2 => r.f64() * 2.0 - 1.0,
+        3 => (r.f64() * 2.0 - 1.0) * 4.0,
+        4 => (r.f64() * 2.0 - 1.0) * 1000.0,
+        5 => {
+            // near +-1 and near odd integers
+            let e = 2f64.powi(-(r.range(1, 52) as i32));
+            let base = (2 * r.range(-3, 3) + 1) as f64;
+            if r.chance(0.5) {
+                base - e
+            } else {
+                base + e
+            }
+        }
+        6 => r.range(-8, 8) as f64 * 0.25,
+        7 => r.range(-20, 20) as f64,
+        8 => (r.f64() * 2.0 - 1.0) * 10f64.powi(-(r.range(1, 12) as i32)),
+        9 => r.range(-1000, 1000) as f64 / r.range(1, 1000) as f64,
+        10 => std::f64::consts::PI * r.range(-3, 3) as f64 / r.range(1, 7) as f64,
+        11 => {
+            let g = 0.6180339887498949;
+            g * r.range(-2, 2) as f64 + r.range(-2, 2) as f64
+        }
+        12 => f64::from_bits(1.0f64.to_bits().wrapping_add(r.range(-3, 3) as u64)),
+        _ => (r.f64() * 2.0 - 1.0) * (1u64 << 20) as f64,
+    }
+}
+
+/// number of continued-fraction terms [a0; a1, ...] of x >= 0 needed before a convergent is
+/// within `tol` of x (exact arithmetic). num-rational's float conversion stops after 30.
+fn cf_terms_needed(x: &Q, tol: &Q) -> usize {
+    let (mut n, mut d) = (x.n.clone(), x.d.clone());
+    let (mut p0, mut q0, mut p1, mut q1) = (BigInt::zero(), BigInt::one(), BigInt::one(), BigInt::zero());
+    let mut k = 0usize;
+    loop {
+        let a = num::Integer::div_floor(&n, &d);
+        let p2 = &a * &p1 + &p0;
+        let q2 = &a * &q1 + &q0;
+        p0 = p1;
+        q0 = q1;
+        p1 = p2;
+        q1 = q2;
+        k += 1;
+        let r = &n - &a * &d;
+        if Q::new(p1.clone(), q1.clone()).sub(x).abs().le(tol) || r.is_zero() || k > 200 {
+            return k;
+        }
+        n = d;
+        d = r;
+    }
+}
+
+fn float_class(f: f64) -> &'static str {
+    if f == f.trunc() {
+        "integer"
+    } else if (f * 1048576.0) == (f * 1048576.0).trunc() && f.abs() < 1e6 {
+        "dyadic<=2^-20"
+    } else if f.abs() <= 1.0 {
+        "inside"
+    } else if f.abs() <= 4.0 {
+        "|f|<=4"
+    } else {
+        "|f|>4"
+    }
+}
+
+fn sub_float(family: &'static str, index: u64, r: &mut Rng, t: &mut Tally) -> (bool, u64) {
+    let c = ctx();
+    let ulp = Q::new(BigInt::one(), BigInt::one() << 52usize);
+    if r.chance(0.6) {
+        // f -> Phase -> f'
+        let f = gen_float(r);
+        let h = hash_str(&format!("f:{:016x}", f.to_bits()));
+        let fq = q_of_f64(f).unwrap();
+        let class = float_class(f);
+        t.add(&format!("from_f64:{class}"));
+        let input = json!({"f": f, "bits": format!("{:016x}", f.to_bits())});
+        let p = match guarded(|| Phase::from_f64(f)) {
+            Ok(p) => p,
+            Err(e) => {
+                c.violation(&format!("Phase::from_f64|panic|{class}|{}", e.site()), family, index, json!({"input": input, "panic": e.text()}));
+                return (false, h);
+            }
+        };
+        let Some((st, sn, sd)) = q_of_phase(&p) else {
+            c.violation("Phase::from_f64|zero-denominator", family, index, json!({"input": input}));
+            return (false, h);
+        };
+        if !st.in_half_open_unit() {
+            c.violation(&format!("Phase::from_f64|not-canonical|{class}"), family, index, json!({"input": input, "stored": format!("{sn}/{sd}")}));
+        }
+        let scale = if fq.abs().lt(&Q::int(1)) { Q::int(1) } else { fq.abs() };
+        let tol = ulp.mul_int(4).mul(&scale);
+        // the stored rational itself must be close to f (mod 2)
+        let d_st = st.circle_dist(&fq);
+        if tol.lt(&d_st) {
+            let terms = cf_terms_needed(&fq.abs(), &tol);
+            t.add("from_f64:far-from-float");
+            let class = if terms > 30 { "needs-more-than-30-continued-fraction-terms" } else { class };
+            c.violation(
+                &format!("Phase::from_f64|stored-value-far-from-float|{class}"),
+                family,
+                index,
+                json!({"input": input, "stored": format!("{sn}/{sd}"), "distance_mod2": d_st.to_f64_nearest(), "tolerance": tol.to_f64_nearest(), "continued_fraction_terms_needed_for_tolerance": terms}),
+            );
+            return (true, h);
+        }
+        match guarded(|| p.to_f64()) {
+            Err(e) => c.violation(&format!("Phase::to_f64|panic|{}", e.site()), family, index, json!({"input": input, "panic": e.text()})),
+            Ok(g) => {
+                let Some(gq) = q_of_f64(g) else {
+                    c.violation("Phase::to_f64|non-finite", family, index, json!({"input": input, "stored": format!("{sn}/{sd}")}));
+                    return (true, h);
+                };
+                // to_f64 within one ulp(1) of the stored value
+                if ulp.lt(&gq.sub(&st).abs()) {
+                    c.violation("Phase::to_f64|inaccurate", family, index, json!({"stored": format!("{sn}/{sd}"), "observed": g, "nearest": st.to_f64_nearest()}));
+                }
+                let dist = gq.circle_dist(&fq);
+                if tol.lt(&dist) {
+                    c.violation(
+                        &format!("Phase::from_f64->to_f64|round-trip-error|{class}"),
+                        family,
+                        index,
+                        json!({"input": input, "stored": format!("{sn}/{sd}"), "back": g, "distance_mod2": dist.to_f64_nearest(), "tolerance": tol.to_f64_nearest()}),
+                    );
+                }
+                if g == f {
+                    t.add("from_f64:round-trip-bit-exact");
+                }
+            }
+        }
+        (f != f.trunc(), h)
+    } else {
+        // Phase -> f -> Phase'
+        let d = gen_den(r, 20);
+        let n = gen_num(r, d, 24);
+        let h = hash_str(&format!("pf:{n}/{d}"));
+        let Some((p, st)) = make_checked(family, index, t, r, n, d) else { return (false, h) };
+        t.add("to_f64->from_f64");
+        let input = json!({"phase": qj(&st)});
+        let g = match guarded(|| p.to_f64()) {
+            Ok(g) => g,
+            Err(e) => {
+                c.violation(&format!("Phase::to_f64|panic|{}", e.site()), family, index, json!({"input": input, "panic": e.text()}));
+                return (false, h);
+            }
+        };
+        let Some(gq) = q_of_f64(g) else {
+            c.violation("Phase::to_f64|non-finite", family, index, json!({"input": input}));
+            return (false, h);
+        };
+        if ulp.lt(&gq.sub(&st).abs()) {
+            c.violation("Phase::to_f64|inaccurate", family, index, json!({"input": input, "observed": g, "nearest": st.to_f64_nearest()}));
+        }
+        if g == st.to_f64_nearest() {
+            t.add("to_f64:correctly-rounded");
+        }
+        match guarded(|| Phase::from_f64(g)) {
+            Err(e) => c.violation(&format!("Phase::from_f64|panic|after-to_f64|{}", e.site()), family, index, json!({"input": input, "float": g, "panic": e.text()})),
+            Ok(p2) => match q_of_phase(&p2) {
+                None => c.violation("Phase::from_f64|zero-denominator", family, index, json!({"input": input})),
+                Some((st2, _, _)) => {
+                    let dist = st2.circle_dist(&st);
+                    if ulp.mul_int(4).lt(&dist) {
+                        c.violation(
+                            "Phase::to_f64->from_f64|round-trip-error",
+                            family,
+                            index,
+                            json!({"input": input, "float": g, "back": qj(&st2), "distance_mod2": dist.to_f64_nearest()}),
+                        );
+                    }
+                    if st2 == st {
+                        t.add("to_f64->from_f64:same-rational");
+                    }
+                }
+            },
+        }
+        (!st.is_integer(), h)
+    }
+}
+
+// ------------------------------------------------------------------------------------
+// offline python cross-check
+// ------------------------------------------------------------------------------------
+
+fn run_python_check() {
+    let c = ctx();
+    let events = std::mem::take(&mut *EVENTS.lock().unwrap_or_else(|e| e.into_inner()));
+    let n_events = events.len();
+    let dir = format!("{VERIF_DIR}/harness/target/tmp");
+    if let Err(e) = std::fs::create_dir_all(&dir) {
+        c.inconclusive("python-checker-failed", json!({"why": format!("cannot create {dir}: {e}")}));
+        return;
+    }
+    let suffix = if c.replay.is_some() { "_replay" } else { "" };
+    let path = format!("{dir}/c16_events_{}_{}{}.jsonl", c.tier.name(), c.seed, suffix);
+    let mut body = events.join("\n");
+    body.push('\n');
+    if let Err(e) = std::fs::write(&path, body) {
+        c.inconclusive("python-checker-failed", json!({"why": format!("cannot write {path}: {e}")}));
+        return;
+    }
+    let script = format!("{VERIF_DIR}/py/c16_fraction_check.py");
+    let out = std::process::Command::new("python3").arg(&script).arg(&path).output();
+    let mut summary = json!({"log": path, "events_logged": n_events, "script": script});
+    match out {
+        Err(e) => {
+            c.inconclusive("python-checker-failed", json!({"why": format!("cannot run python3: {e}")}));
+            summary["status"] = json!("not-run");
+        }
+        Ok(o) => {
+            let stdout = String::from_utf8_lossy(&o.stdout).to_string();
+            let last = stdout.lines().last().unwrap_or("").to_string();
+            let parsed: Option<Value> = serde_json::from_str(&last).ok();
+            let code = o.status.code();
+            match (code, parsed) {
+                (Some(0), Some(v)) if v["mismatches"].as_u64() == Some(0) && v["checked"].as_u64() == Some(n_events as u64) => {
+                    c.count("python:events-checked", n_events as u64);
+                    summary["status"] = json!("agree");
+                    summary["python"] = v["python"].clone();
+                }
+                (Some(1), Some(v)) if v["mismatches"].as_u64().unwrap_or(0) > 0 => {
+                    c.count("python:events-checked", v["checked"].as_u64().unwrap_or(0));
+                    summary["status"] = json!("mismatch");
+                    c.violation(
+                        "limit_denominator|differs-from-python-Fraction|offline-log",
+                        "python-offline-check",
+                        0,
+                        json!({"log": path, "result": v, "note": "re-run: python3 /verif/py/c16_fraction_check.py <log>"}),
+                    );
+                }
+                (code, parsed) => {
+                    summary["status"] = json!("checker-failed");
+                    c.inconclusive(
+                        "python-checker-failed",
+                        json!({"exit_code": code, "stdout": last, "parsed": parsed, "stderr": String::from_utf8_lossy(&o.stderr).chars().take(400).collect::<String>()}),
+                    );
+                }
+            }
+        }
+    }
+    c.extra("python_offline_check", summary);
+}
+
+// ------------------------------------------------------------------------------------
+
+fn run_family(family: &'static str, batches: usize, keep_batches: u64, sub: fn(&'static str, u64, &mut Rng, &mut Tally, bool) -> (bool, u64)) {
+    par_cases(family, batches, move |r, i| {
+        let c = ctx();
+        let mut t = Tally::default();
+        let keep = i < keep_batches || c.replay.is_some();
+        for k in 0..BATCH {
+            let (nontrivial, h) = sub(family, i, r, &mut t, keep);
+            c.case(family, if nontrivial { Some(h) } else { None });
+            if i == 0 && k < 2 {
+                c.sample_n(10, || json!({"family": family, "batch": i, "sub_case": k, "non_trivial": nontrivial, "case_hash": format!("{h:016x}")}));
+            }
+        }
+        t.flush();
+    });
+}
 
 pub fn run() {
-    ctx().harness_error("C16 monitor not implemented yet");
+    let c = ctx();
+    if let Err(e) = ratio::self_test() {
+        c.harness_error(&format!("ratio oracle self-test failed: {e}"));
+        return;
+    }
+    c.set_rule(
+        "one case = one generated query (a pair of constructions n/d and n/d+2k with ==/predicates; a pair of phases with 8 arithmetic operations; one limit_denominator call; one float round trip); cases run in batches of 64 per replayable index; non-trivial = the exact un-normalised result lies outside (-1,1] (normal form / arithmetic), the denominator exceeds the bound (limit_denominator), the float is not an integer (float); distinct = distinct 64-bit hashes of the query",
+    );
+    c.assume("BigInt rational oracle (harness/src/oracle/ratio.rs) is correct: self-tested at start incl. CPython doc examples and port-vs-brute-force on a grid; the port is re-validated against the real fractions.Fraction by the offline python check on the same event log");
+    c.assume("operands bounded so that no intermediate of Ratio<i64> arithmetic exceeds 62 bits (|n| <= 2^40, d <= 2^30 for arithmetic; d < 2^62 for limit_denominator; |k| <= 2^32 for integer scaling)");
+    c.assume("float round trip tolerance: 4 ulp of max(1,|f|) (ulp = 2^-52), distance taken modulo 2");
+    let t = c.tier;
+    // batches of 64 sub-cases
+    let (b_nf, b_ar, b_lp, b_lr, b_fl) = t.pick((400usize, 300usize, 500usize, 200usize, 300usize), (40_000usize, 30_000usize, 50_000usize, 20_000usize, 30_000usize));
+    // python log: quick <= 20000 events, thorough <= 1e6
+    let (keep_p, keep_r) = t.pick((230u64, 80u64), (11_000u64, 4_500u64));
+    run_family("normal-form-eq-predicates", b_nf, 0, |f, i, r, t, _| sub_normal_eq_pred(f, i, r, t));
+    run_family("arithmetic", b_ar, 0, |f, i, r, t, _| sub_arith(f, i, r, t));
+    run_family("limit-denominator-phase", b_lp, keep_p, sub_limit_phase);
+    run_family("limit-denominator-raw", b_lr, keep_r, sub_limit_raw);
+    run_family("float-round-trip", b_fl, 0, |f, i, r, t, _| sub_float(f, i, r, t));
+    run_python_check();
+    c.extra("exhaustive", json!(false));
 }
